@@ -1,4 +1,125 @@
-import TransportVerif.Model.Vnet
+import TransportVerif.Link.Vnet
+import TransportVerif.Proofs.Vnet
+import TransportVerif.Proofs.VnetAcc
+import TransportVerif.Proofs.VnetFifo
+/-
+C01 — vnet delivers each datagram at most once, intact, in order, to its socket only.
+The statements below are FIXED; only the proofs may change.
+
+The model (Model/Vnet.lean) is the vnet data path at queue granularity; `Reach n` ranges over EVERY
+topology (any list of routers with any parent links, subnets, NIC tables, queue capacities and NAT
+configurations, any hosts) and EVERY sequence of writes from any socket to any destination with
+any payload, router iterations in any order, reads, binds, closes, time steps, starts and stops.
+-/
 namespace TV.Props.C01
-theorem placeholder : True := trivial
+open TV TV.Nat TV.Vnet TV.VnetLink
+
+/-- At most once, and never silently lost: the chunks in the router queues, the chunks handed to
+    sockets and the chunks discarded (each with its reason) are, as a multiset of write numbers,
+    exactly the writes made so far — every datagram written is in exactly one place, exactly once. -/
+theorem accounting (n : Net) (h : Reach n) :
+    ((allChunks n).map (·.id)).Perm (List.range n.written.length) := by
+  exact Proofs.Vnet.accounting n h
+
+/-- … in particular no datagram is ever delivered twice, to the same or to two sockets. -/
+theorem delivered_at_most_once (n : Net) (h : Reach n) : ((deliveredAll n).map (·.id)).Nodup := by
+  exact Proofs.Vnet.delivered_at_most_once n h
+
+/-- … and once every queue is empty, every datagram written so far has been handed to a socket or
+    was discarded for one of the recorded reasons (`Drop`): nothing else is missing. -/
+theorem nothing_missing_at_rest (n : Net) (h : Reach n) (hq : ∀ r ∈ n.routers, r.queue = []) (i : Nat)
+    (hi : i < n.written.length) :
+    (∃ c ∈ deliveredAll n, c.id = i) ∨ (∃ c ∈ dropped n, c.id = i) := by
+  exact Proofs.Vnet.nothing_missing_at_rest n h hq i hi
+
+/-- Intact: wherever a chunk is, its payload, its origin socket and the destination it was written to
+    are those of the write that created it (translation rewrites addresses, never the payload). -/
+theorem payload_intact (n : Net) (h : Reach n) (c : Chunk) (hc : c ∈ allChunks n) :
+    n.written[c.id]? = some { origin := c.origin, dst := c.odst, payload := c.payload } := by
+  exact Proofs.Vnet.payload_intact n h c hc
+
+/-- Only to its socket: whatever a socket was handed is addressed (after translation) to the port the
+    socket is bound to and to its IP unless it is bound to the wildcard, and the hand-over was the
+    chunk's last hop. -/
+theorem only_bound_socket (n : Net) (h : Reach n) (hh s : Nat) (sk : SockM) (hs : sockAt n hh s = some sk)
+    (c : Chunk) (hc : c ∈ sk.delivered) :
+    c.dst.port = sk.port ∧ (sk.ip = 0 ∨ sk.ip = c.dst.ip) ∧ c.hops.getLast? = some (.inbox hh s) := by
+  exact Proofs.Vnet.only_bound_socket n h hh s sk hs c hc
+
+/-- … and the hand-over only ever goes to an open socket that covers the destination: `deliver`
+    either records a drop or appends the chunk to exactly the socket `findSock` returns, which is
+    open and covers the chunk's destination; every other socket of the network is untouched. -/
+theorem deliver_target (n : Net) (hh : Nat) (c : Chunk) :
+    (∃ d, n.deliver hh c = n.drop c d) ∨
+    (∃ hm s sk, n.hosts[hh]? = some hm ∧ hm.findSock c.dst = some s ∧ hm.socks[s]? = some sk ∧ sk.covers c.dst = true ∧
+      (n.deliver hh c).drops = n.drops ∧ (n.deliver hh c).routers = n.routers ∧
+      ∀ h' s', (h', s') ≠ (hh, s) → sockAt (n.deliver hh c) h' s' = sockAt n h' s') := by
+  exact Proofs.Vnet.deliver_target n hh c
+
+/-- What the application reads is what was handed over, in that order, each datagram once: the
+    unread datagrams are always a suffix of the hand-over log … -/
+theorem inbox_is_suffix (n : Net) (h : Reach n) (hh s : Nat) (sk : SockM) (hs : sockAt n hh s = some sk) :
+    sk.inbox <:+ sk.delivered := by
+  exact Proofs.Vnet.inbox_is_suffix n h hh s sk hs
+
+/-- … a read returns one of the unread datagrams and leaves exactly those after it; a connected
+    socket returns only datagrams of its peer (and skips only datagrams of others). -/
+theorem read_takes_next (n : Net) (hh s : Nat) (sk : SockM) (hs : sockAt n hh s = some sk) (n' : Net) (c : Chunk)
+    (hr : n.read hh s = (n', .pkt c)) :
+    ∃ skipped sk', sockAt n' hh s = some sk' ∧ sk.inbox = skipped ++ c :: sk'.inbox ∧ sk'.delivered = sk.delivered ∧
+      (∀ ra, sk.remote = some ra → c.src = ra ∧ ∀ x ∈ skipped, x.src ≠ ra) ∧ (sk.remote = none → skipped = []) := by
+  exact Proofs.Vnet.read_takes_next n hh s sk hs n' c hr
+
+/-- In order (FIFO per flow).  Two datagrams written by the same socket that travelled through the
+    same sequence of queues to the same socket are handed over in the order they were written —
+    for every topology and every interleaving of writers and routers.  (`flow_fifo_statement` below is
+    the statement without the same-path hypothesis; see DESIGN.md for what is missing.) -/
+theorem flow_fifo_partial (n : Net) (h : Reach n) (hh s : Nat) (sk : SockM) (hs : sockAt n hh s = some sk)
+    (a b : Chunk) (ha : a ∈ sk.delivered) (hb : b ∈ sk.delivered)
+    (ho : a.origin = b.origin) (hp : a.hops = b.hops) (hlt : a.id < b.id) :
+    Before sk.delivered a b := by
+  exact Proofs.Vnet.flow_fifo_partial n h hh s sk hs a b ha hb ho hp hlt
+
+/-- the full ordering claim of C01 (same two sockets ⇒ write order), not proved: it needs that two
+    datagrams of one flow take the same path, which depends on the NAT state along the path -/
+def flow_fifo_statement : Prop :=
+  ∀ (n : Net), Reach n → ∀ (hh s : Nat) (sk : SockM), sockAt n hh s = some sk →
+    ∀ a b, a ∈ sk.delivered → b ∈ sk.delivered → a.origin = b.origin → a.odst = b.odst → a.id < b.id →
+      Before sk.delivered a b
+
+/-- Not lost while admissible, step by step: a push into a started router below capacity discards nothing … -/
+theorem push_keeps (n : Net) (r : Nat) (rt : RouterM) (c : Chunk) (hr : n.routers[r]? = some rt)
+    (hs : n.started = true) (hcap : rt.cap = 0 ∨ rt.queue.length < rt.cap) :
+    (n.pushTo r c).drops = n.drops ∧
+    ∃ rt', (n.pushTo r c).routers[r]? = some rt' ∧ rt'.queue = rt.queue ++ [{ c with hops := c.hops ++ [.queue r] }] := by
+  exact Proofs.Vnet.push_keeps n r rt c hr hs hcap
+
+/-- … and a hand-over to a host that has an open socket covering the destination, with room in its
+    inbox, discards nothing. -/
+theorem deliver_keeps (n : Net) (hh : Nat) (hm : HostM) (s : Nat) (sk : SockM) (c : Chunk) (h1 : n.hosts[hh]? = some hm)
+    (h2 : hm.findSock c.dst = some s) (h3 : hm.socks[s]? = some sk) (h4 : sk.inbox.length < inboxCap) :
+    (n.deliver hh c).drops = n.drops ∧
+    ∃ sk', sockAt (n.deliver hh c) hh s = some sk' ∧ sk'.delivered = sk.delivered ++ [{ c with hops := c.hops ++ [.inbox hh s] }] := by
+  exact Proofs.Vnet.deliver_keeps n hh hm s sk c h1 h2 h3 h4
+
+/-- one iteration of a router takes exactly the head of its queue -/
+theorem route_pops_head (n : Net) (r : Nat) (rt : RouterM) (c : Chunk) (rest : List Chunk)
+    (hr : n.routers[r]? = some rt) (hq : rt.queue = c :: rest) :
+    ∃ rt', (n.routeOne r).routers[r]? = some rt' ∧ (rt'.queue = rest ∨ ∃ c', rt'.queue = rest ++ [c']) := by
+  exact Proofs.Vnet.route_pops_head n r rt c rest hr hq
+
+-- non-vacuity: two hosts on one router, one datagram written, routed, read
+def demoNet : Net :=
+  { routers := [{ netIP := 0x01020300, maskBits := 24, parent := none, nat := none,
+                  nics := [(0x01020302, .host 0), (0x01020303, .host 1)], queue := [], cap := 0 }],
+    hosts := [{ ips := [0x01020302], router := some 0, socks := [] }, { ips := [0x01020303], router := some 0, socks := [] }],
+    now := 0, started := false, written := [], drops := [] }
+
+example : demoNet.Fresh := by
+  refine ⟨rfl, rfl, ?_, ?_⟩ <;> intro x hx <;> simp [demoNet] at hx <;> rcases hx with rfl | rfl <;> rfl
+
+example : ((run demoNet [.start, .bind 0 0 4000 none, .bind 1 0x01020303 4000 none,
+    .write 0 0 ⟨0x01020303, 4000⟩ [1, 2, 3], .route 0]).hosts[1]?.bind (·.socks[0]?)).map (fun sk => sk.delivered.map (fun c => (c.id, c.src, c.payload)))
+    = some [(0, ⟨0x01020302, 4000⟩, [1, 2, 3])] := by decide
+
 end TV.Props.C01
